@@ -408,8 +408,11 @@ def finish(mod, tier, seed, merged, wall, replay_mode=False):
         "violations": int(n_new),
     }
     if not replay_mode:
-        os.makedirs(os.path.join(VERIF, "evidence"), exist_ok=True)
-        path = os.path.join(VERIF, "evidence", f"{pid}.json")
+        # evidence/ describes runs against /repo itself; a run pointed at another tree (RV_REPO: seeded changes, reverted
+        # fixes in scratch copies) leaves its record beside the replays (git-ignored) and never touches evidence/
+        evdir = "evidence" if os.path.realpath(REPO) == "/repo" else os.path.join("replays", "evidence-of-runs-against-other-trees")
+        os.makedirs(os.path.join(VERIF, evdir), exist_ok=True)
+        path = os.path.join(VERIF, evdir, f"{pid}.json")
         with open(path, "w") as f:
             json.dump(ev, f, indent=1, sort_keys=False)
         _validate_evidence(path, ev, lenient=bool(new_by_mech or inconclusive))
